@@ -90,6 +90,8 @@ func (x *Exec) topEnv(st *State, where string) *Env {
 			// a capture that did not happen on this path denotes the empty slice / an undefined scalar
 			if c.Kind == "scalar" {
 				env.vars[c.Name] = Sc{x.s.declare("undef.capture:"+c.Name, "Int"), "Int"}
+			} else if c.Kind == "err" {
+				env.vars[c.Name] = Err{"0", "0"} // the call did not happen: no error from it
 			} else {
 				env.vars[c.Name] = Slice{Off: "0", Len: "0", Cap: "0"}
 			}
